@@ -477,6 +477,29 @@ def _eval_extrap(ctx, case):
                 ctx.oracle_fail("preflight:badext", case, {"error": repr(err), "exists": os.path.exists(out)})
         elif mode == "normal":
             _oracle_normal(ctx, case, man, in_mols, ends, paths, out, err, rec)
+            if err is None and os.path.exists(out):
+                # the same Manager extrapolates the same system AGAIN: labels, numbers, counts and header of
+                # the second file must be those of the first (coordinates of species with < 3 reference atoms
+                # depend on fresh random completions, so only what the property fixes is compared).
+                # History matters: the target topology shared by all results still holds the residue numbers
+                # of the LAST molecule mapped in the first run (seed C05-3).
+                out2 = out[:-4] + "_again.gro"
+                try:
+                    man.extrapolate_system(out2)
+                    f1, n1, l1, b1 = _read_gro(out)
+                    f2, n2, l2, b2 = _read_gro(out2)
+                    same = (f1 == f2 and n1 == n2 and [tuple(l[:4]) for l in l1] == [tuple(l[:4]) for l in l2]
+                            and np.array_equal(b1, b2))
+                    ctx.oracle_ok()
+                    ctx.count("second-extrapolation:" + ("same" if same else "DIFFERS"))
+                    if not same:
+                        bad = next((k for k, (a, b) in enumerate(zip(l1, l2)) if tuple(a[:4]) != tuple(b[:4])), None)
+                        ctx.oracle_fail("extrapolate:second-run-differs-from-first", case,
+                                        {"first_difference_at_line": bad,
+                                         "first": list(l1[bad][:4]) if bad is not None else None,
+                                         "second": list(l2[bad][:4]) if bad is not None else None})
+                except Exception as e:   # noqa: BLE001
+                    ctx.oracle_fail(f"extrapolate:second-run-raises-{type(e).__name__}", case, {"error": repr(e)})
         else:
             ctx.count(f"{mode}:{errname}")       # malformed streams: model comparison only
 
